@@ -124,7 +124,7 @@ func (s *MultipartReply) MarshalBinary() (data []byte, err error) {
 
 func (s *MultipartReply) UnmarshalBinary(data []byte) error {
 	err := s.Header.UnmarshalBinary(data)
-	n := s.Header.Len()
+	n := int(s.Header.Len()) // an int: a 16-bit offset would wrap on a long reply and the loop would start over
 
 	s.Type = binary.BigEndian.Uint16(data[n:])
 	n += 2
@@ -132,7 +132,7 @@ func (s *MultipartReply) UnmarshalBinary(data []byte) error {
 	n += 2
 	n += 4 // for padding
 	var req []util.Message
-	for n < s.Header.Length {
+	for n < int(s.Header.Length) {
 		var repl util.Message
 		switch s.Type {
 		case MultipartType_Aggregate:
@@ -158,7 +158,7 @@ func (s *MultipartReply) UnmarshalBinary(data []byte) error {
 		if err != nil {
 			log.Printf("Error parsing stats reply")
 		}
-		n += repl.Len()
+		n += int(repl.Len())
 		req = append(req, repl)
 
 	}
